@@ -160,7 +160,17 @@ Invalid(op) ==
             E(base \o ActAttr(op, a), BuildInputs(op, "f32", a, 2, 2, 2, 2, {"B", "h0"}, 0, FALSE, FALSE), nout, "fewer_outputs")
       /\ (op = "LSTM" => \A a \in StructActs(op), opt \in {{"B"}, {"B", "h0", "c0", "P"}} :
             E(base \o ActAttr(op, a) \o <<AI("input_forget", 1)>>, BuildInputs(op, "f32", a, 2, 2, 2, 2, opt, 0, FALSE, FALSE), 3, "input_forget"))
-EmitInvalid == st.phase = "invalid" /\ Invalid(st.p.op) /\ st' = [st EXCEPT !.phase = "done"]
+\* tiling law along the batch axis (Outcome!TileLawAx): X and the initial states carry the batch on axis 1, Y on axis 2, Y_h / Y_c on
+\* axis 1; the samples of a batch are independent, so the harness repeats a 2-sample batch several thousand times
+TileRec(op) ==
+   \A a \in StructActs(op) : \A opt \in {{"B"}, AllOpt(op), AllOpt(op) \ {"B"}} :
+      LET ins == BuildInputs(op, "f32", a, 2, 2, 2, 2, opt, 0, FALSE, FALSE)
+          attrs == <<AI("hidden_size", 2)>> \o ActAttr(op, a)
+          iax == [i \in {1} \cup (IF "h0" \in opt THEN {6} ELSE {}) \cup (IF op = "LSTM" /\ "c0" \in opt THEN {7} ELSE {}) |-> 1]
+          oax == IF op = "LSTM" THEN <<2, 1, 1>> ELSE <<2, 1>>
+          c == CaseOf("tile", op, attrs, ins, NOut(op), <<op, "tile_law">> \o OptFeat(opt)) IN
+      (c.emit /\ TileLawAx(LAMBDA i : SemRecurrent(op, attrs, i, NOut(op)).allowed, ins, iax, oax)) => P(c @@ [tile |-> TileFieldAx(iax, oax)])
+EmitInvalid == st.phase = "invalid" /\ Invalid(st.p.op) /\ TileRec(st.p.op) /\ st' = [st EXCEPT !.phase = "done"]
 
 Next == Build \/ Step \/ Emit \/ EmitInvalid
 Spec == Init /\ [][Next]_st
